@@ -333,18 +333,7 @@ fn check_props(d: &hook::Dump, t: &hook::TypeDump, script: &str, rep: &mut Repor
     if let (Some(Ok(c)), Some(Ok(e))) = (&t.clone_ops, &t.eq_ops) {
         let is_enum = matches!(t.node, hook::Node::Enum(_));
         if all_inhabited || is_enum {
-            let mut co = offsets_in(c, &["copy", "clone", "call clone"], "ret");
-            if is_enum {
-                // the tag write is not a component
-                co = offsets_in(c, &["copy", "clone", "call clone"], "ret");
-            }
-            if co != loc {
-                rep.violation(
-                    "offsets used by the generated clone function differ from Lowerer::location's",
-                    "offsets-disagree clone",
-                    input(json!({"location": loc, "clone": co})),
-                );
-            }
+            let co = offsets_in(c, &["copy", "clone", "call clone"], "ret");
             // eq: only components that are compared (zero-sized ones are skipped)
             let eo = offsets_in(e, &["read", "eq", "call eq"], "left");
             let eo: Vec<u64> = if is_enum { eo.into_iter().skip(1).collect() } else { eo };
@@ -371,6 +360,14 @@ fn check_props(d: &hook::Dump, t: &hook::TypeDump, script: &str, rep: &mut Repor
                 }
                 out
             };
+            // clone: zero-sized components are not copied either
+            if co != nz {
+                rep.violation(
+                    "offsets used by the generated clone function differ from Lowerer::location's",
+                    "offsets-disagree clone",
+                    input(json!({"location": nz, "clone": co})),
+                );
+            }
             if eo != nz {
                 rep.violation(
                     "offsets compared by the generated eq function differ from Lowerer::location's",
@@ -497,8 +494,9 @@ fn main() {
             let seed: u64 = args[2].parse().expect("seed");
             let tier = args.get(3).map(|s| s.as_str()).unwrap_or("quick");
             let (n_layout, n_beh) = match tier {
-                "thorough" => (6000, 6000),
-                _ => (400, 300),
+                "thorough" => (40000, 30000),
+                "search" => (6000, 6000),
+                _ => (2000, 1500),
             };
             let mut rep = Report::default();
             let s = seed.to_string();
@@ -530,6 +528,7 @@ fn main() {
             match args[2].as_str() {
                 "layout" => worker_layout(seed, from, n),
                 "beh" => beh::worker(seed, from, n),
+                "beh-one" => beh::replay_in_worker(&args[6]),
                 _ => std::process::exit(64),
             }
         }
